@@ -154,6 +154,12 @@ theorem every_module_has_params :
     ∀ m ∈ Gen.Facts.customModules, (Gen.Facts.prefixTable.any (fun r => r.module == m && r.name == "Params" && r.initWrites && r.exportReads)) = true := by
   decide
 
+/-- EXPORT READS, AND IMPORT WRITES, WHOLE COLLECTIONS: the model's `exportG` copies every entry of a prefix that
+    ExportGenesis reads (`exportReads`) and `importG` writes every exported entry.  That is true of the code only if no walk on
+    the ExportGenesis / InitGenesis call paths can end before the collection does; the regenerated list of such places (walk
+    callbacks that may answer "stop" without an error, breaks out of loops) is empty on the current tree. -/
+theorem genesis_paths_never_stop_early : Gen.Facts.genesisEarlyExits = [] := by decide
+
 /-- custom modules are initialised after the modules whose state their InitGenesis may read (bank, staking, auth) -/
 theorem custom_init_after_bank_staking :
     ∀ m ∈ Gen.Facts.customModules,
